@@ -48,9 +48,10 @@ def run(ctx):
             ctx.violation("%s: event %s" % (rep.get("v"), rep.get("e")), {"kind": "ctypes-event", "event": rep.get("e"), "verdict": rep.get("v")})
         cov = {
             "states": r.states, "transitions": r.transitions, "traces_validated_against_impl": nev,
-            "evaluations": nev, "distinct_nontrivial": nev,
+            "evaluations": nev, "distinct_nontrivial": len({json.dumps(e) for e in json.load(open(ef))["events"]}),
             "rule": "one event per ordered pair of (signedness, width) over the width set, plus one per type for promotion; "
-                    "every event is distinct by construction; widths: %d values from %d to %d" % (len(ws), ws[0], ws[-1]),
+                    "plus the same calls with group flags (CONST, BOOL, HYBRID_LVAR) on the arguments, with one object on both sides, "
+                    "and with a caller that changes every returned object in place before an identical later call (flag 64: shared state); widths: %d values from %d to %d" % (len(ws), ws[0], ws[-1]),
             "samples": json.load(open(ef))["events"][:3],
             "exhaustive": ctx.tier == "thorough" and False,
             "width_set_size": len(ws),
